@@ -158,6 +158,8 @@ def _result_or_exception(engine, st, fr, selfv, oid, name, args, kwargs, node):
                     else:
                         yield st2, Z(st2.fresult(oid), "any")
 
+    tmo = args[0] if args else kwargs.get("timeout")
+    st.trace.append(Event("result-call", recv=oid, meth=name, args=[engine.to_val(st, tmo)], site=engine.site(fr, node), held=list(st.held)))
     for st1, d in engine.branch(st, st.done(oid), "future done at %s()" % name):
         if d:
             for r in finish(st1):
